@@ -14,11 +14,17 @@ V: the gate / cadence traces of all multi-device runs are validated by TLC again
 """
 import copy
 import json
+import time
 
 from harness import core
 from harness.props.c04 import judge_traces
 
 LEVEL = "model_checking"
+
+# quick tier: which of the exported trees (by N) each variant runs; together they still cover
+# every residue of N modulo every D <= 4 (checked at run time), N <= D (b = 1) and N > D
+QUICK_N = {"full": {1, 3, 6, 8, 11}, "int16": {1, 6, 11}, "compressed": {3, 8, 11},
+           "shard": {0, 1, 3, 6, 8, 11}}
 
 PMAP_ACTIONS = ["Pad", "BatchAll", "ComputeAny", "AllGather", "Unbatch", "Assign", "Regroup"]
 SHARD_ACTIONS = ["ShardPad", "ShardComputeAny", "ShardCombine", "ShardLookup"]
@@ -85,6 +91,10 @@ def index_maps(ck):
   else:
     lost = {k: v for k, v in pr["probe"].items() if any(s != [1, 1] for s in v)}
     ck.cov["unbatch_variant"] = "squeeze" if lost else "exact"
+    if lost:
+      ck.violation("ds|unbatch|1x1_elements|rank_lost",
+                   f"unbatch returns elements of shapes {lost} for 1x1 inputs (Devices.tla: unbatch = \"squeeze\", "
+                   "ElemShapeKept fails): a tree whose statistics are all 1x1 cannot be updated", pr["probe"])
     ck.count(len(pr["probe"]), key="unbatch_1x1_probe")
   # sharded init functions for every (N, D)
   jobs = [{"kind": "shardinit", "rec": r} for r in sh]
@@ -137,7 +147,10 @@ def runs(ck):
     rec = {"N": r0["N"], "counts": r0["counts"], "sizes": sizes, "crank": crank}
     variants = [mode] if (mode == "shard" or crank) else ["pmap", "pmapq"]
     for v in variants:
-      for P in ([1, 2] if (not quick or r0["N"] in (3, 6)) else [1 + gi % 2]):
+      vname = "shard" if mode == "shard" else "compressed" if crank else {"pmap": "full", "pmapq": "int16"}[v]
+      if quick and r0["N"] not in QUICK_N[vname]:
+        continue                      # budget: quick runs a subset of the exported trees per variant
+      for P in ([1, 2] if not quick else [1 + gi % 2]):
         o = {"mode": v, "P": P, "S": 1, "Start": 1, "merge": False, "block_size": r0["cfg"]["B"],
              "compression_rank": crank, "beta2": [1.0, 0.75][gi % 2], "beta1": [0.0, 0.5][(gi // 2) % 2],
              "graft": ["SGD", "RMSPROP", "ADAGRAD"][gi % 3], "nesterov": bool(gi % 2)}
@@ -185,11 +198,17 @@ def runs(ck):
   return jobs, res, traces
 
 
+def _phase(ck, name, t0):
+  ck.cov.setdefault("phase_wall_s", {})[name] = round(time.time() - t0, 1)
+  return time.time()
+
+
 def run(ck):
-  model(ck)
-  index_maps(ck)
-  all_ones_corner(ck)
-  jobs, res, traces = runs(ck)
+  t = time.time()
+  model(ck); t = _phase(ck, "M", t)
+  index_maps(ck); t = _phase(ck, "R1_R3a_index_maps", t)
+  all_ones_corner(ck); t = _phase(ck, "all_1x1_corner", t)
+  jobs, res, traces = runs(ck); t = _phase(ck, "R2_R3b_runs", t)
   # ---- binding self-test (R2): a run whose D-device result is compared against ANOTHER seed's
   # single-device reference must be flagged; done by a worker-side switch? no: corrupt expectation
   # of the Collect step instead (statistics per parameter)
@@ -215,6 +234,7 @@ def run(ck):
   sub = core.Check(ck.pid, ck.level, ck.tier, ck.seed); sub.work = ck.work
   vs = sub.validate("DSControl_Trace", "DSControl_Trace", [{"cfg": t0["cfg"], "events": t0["events"]}])
   ck.selftest("V: preconditioner change bit on a non-refresh step is rejected", not vs[0]["accepted"])
+  _phase(ck, "selftests_V", t)
   ck.assume("forced host-platform CPU devices stand in for accelerators (same program per replica, "
             "real all_gather / mesh partitioning); a D-device pmap inside a process with Dmax forced devices "
             "is the program a process with exactly D devices would run")
